@@ -1451,7 +1451,8 @@ func (c *Conn) executeQuery(ctx context.Context, qry *Query) *Iter {
 			}
 		}
 
-		params.skipMeta = !(c.session.cfg.DisableSkipMetadata || qry.disableSkipMetadata)
+		// protocol 1 has no skip_metadata flag, the result always carries its metadata
+		params.skipMeta = c.version > protoVersion1 && !(c.session.cfg.DisableSkipMetadata || qry.disableSkipMetadata)
 
 		frame = &writeExecuteFrame{
 			preparedID:    info.id,
